@@ -31,6 +31,7 @@ import (
 	"verif/internal/ev"
 	"verif/internal/mon"
 	"verif/internal/opdrv"
+	"verif/internal/sched"
 )
 
 func main() {
@@ -44,8 +45,15 @@ func main() {
 		"request objects: one-directional (override only if); an override while RequestObjectSupported=false is grey when all conditions of the statement hold",
 		"vstore resolves client keys strictly by (client id, kid)",
 	)
+	run.Assume(
+		"one *op.JWTProfileVerifier may be used by any number of overlapping calls (the constructors return a pointer, ClientJWTProfile hands a pointer out): each call is judged on its own; a running call that cannot finish while the other is parked is inconclusive",
+		"with a custom subject check that admits sub != iss the authenticated client is still the issuer (the statement: 'the authenticated client identity is then exactly that issuer')",
+		"a client-authentication request that also carries a Basic header, another client_id or no / a wrong client_assertion_type may be refused although the assertion conforms (grey)",
+	)
+	sched.Install() // library spans, storage calls and client getters become yield points (inert unless a goroutine is registered)
 	initRegistry()
 	initDirect()
+	initClientAuth()
 	run.Extra("key_registry", registryTable())
 
 	var mand []string
@@ -72,8 +80,12 @@ func main() {
 	nInterop := run.N(360, 3600)
 	nDyn := run.N(1800, 36000)
 	nRP := run.N(144, 1440)
+	nShared := run.N(1200, 24000)
+	nClientAuth := run.N(6000, 120000)
+	nCfg := run.N(2800, 56000)
 
-	streams := map[string]func(*ev.Run, int){"direct": directCase, "endpoint": endpointCase, "reqobj": reqObjCase, "interop": interopCase, "dynhost": dynCase, "rpinterop": rpInteropCase}
+	streams := map[string]func(*ev.Run, int){"direct": directCase, "endpoint": endpointCase, "reqobj": reqObjCase, "interop": interopCase, "dynhost": dynCase, "rpinterop": rpInteropCase,
+		"shared": sharedCase, "clientauth": clientAuthCase, "cfgendpoint": cfgCase}
 	if rc := run.ReplayCase(); rc >= 0 {
 		var w struct {
 			Stream string `json:"stream"`
@@ -92,6 +104,9 @@ func main() {
 	run.Mandatory(mand...)
 	run.Mandatory(dynMandatory()...)
 	run.Mandatory(rpMandatory()...)
+	run.Mandatory(sharedMandatory()...)
+	run.Mandatory(clientAuthMandatory()...)
+	run.Mandatory(cfgMandatory()...)
 	phases := map[string]float64{}
 	phase := func(name string, n int, fn func(*ev.Run, int)) {
 		t := time.Now()
@@ -105,10 +120,14 @@ func main() {
 	phase("reqobj", nReqObj, reqObjCase)
 	phase("endpoint", nEndpoint, endpointCase)
 	phase("direct", nDirect, directCase)
+	phase("clientauth", nClientAuth, clientAuthCase)
+	phase("shared", nShared, sharedCase)
+	phase("cfgendpoint", nCfg, cfgCase)
+	run.Extra("sched_points_total", sched.Points())
 	if pi := mon.Catch(func() { emptyIssuerObservation(run) }); pi != nil {
 		run.Count("observation_not_judged:object_without_iss_and_client_id_signed_with_a_key_stored_under_the_empty_client_id", "panic: "+pi.Value)
 	}
 	run.Extra("phase_wall_s", phases)
-	run.Extra("cases", map[string]int{"direct": nDirect, "endpoint": nEndpoint, "reqobj": nReqObj, "interop": nInterop, "dynhost": nDyn, "rpinterop": nRP})
+	run.Extra("cases", map[string]int{"direct": nDirect, "endpoint": nEndpoint, "reqobj": nReqObj, "interop": nInterop, "dynhost": nDyn, "rpinterop": nRP, "shared": nShared, "clientauth": nClientAuth, "cfgendpoint": nCfg})
 	run.Finish()
 }
